@@ -1,11 +1,13 @@
 package rules
 
 import (
+	"fmt"
 	"go/ast"
 	"go/token"
 	"go/types"
 	"strings"
 
+	"verif/checker/internal/dtab"
 	"verif/checker/internal/load"
 )
 
@@ -499,6 +501,14 @@ func (c *Ctx) getSinceFilter(fi *load.FuncInfo) {
 			return true
 		}
 		fl, ok := call.Args[1].(*ast.FuncLit)
+		if ok {
+			// a filter that remembers anything judges rows by their position, not by their own date
+			if m := dtab.FromFuncLit(info, fl); len(m.State) > 0 {
+				run.Count("getsince_filters", 1)
+				c.violate("repository/getsince", site, "stateful filter", call.Pos(), fmt.Sprintf("the GetSince filter remembers %v between rows: a row is then kept or dropped because of the rows before it, not because of its own date (rows need not be stored in date order)", m.State))
+				return true
+			}
+		}
 		if !ok || len(fl.Body.List) != 1 {
 			c.violate("repository/getsince", site, "filter shape", call.Pos(), "the GetSince filter is not a single-expression closure (undecided, fails closed)")
 			return true
